@@ -77,10 +77,10 @@ theorem exit_propagates_funcall {f restObj : Obj} {as : List Obj} (ha : listOf r
 /-- the body of a lambda: the outcome of the body is the outcome of the application (a lambda has
 no block of its own, so every exit passes) -/
 theorem exit_propagates_lambda_body {cid : Nat} {c : Closure} {args : List Obj}
-    (hc : σ.clos[cid]? = some c) (hn : c.name = "") (hl : c.params.length = args.length)
+    (hc : σ.clos[cid]? = some c) (hn : c.name = "") (hr : c.rest = none) (hl : c.params.length = args.length)
     (h : evalN n (.seq (pushFrame c.env σ.frames.length) c.body) (addFrame σ (zipFrame c.params args)) = (o, σ1)) :
     evalN (n + 1) (.apply (.clo cid) args) σ = (o, σ1) := by
-  simp [evalN, step, stepApply, callClosure, hc, hn, hl, h]
+  simp [evalN, step, stepApply, callClosure, hc, hn, hr, bindArgs, hl, h]
 
 -- ---------------------------------------------------------------------------------------------
 -- exits propagate through the special forms (one theorem per form kind and position)
@@ -491,5 +491,78 @@ example : (evalN 6 (.form {} (.cons (.sym "car") (ofList [.int 5]))) {}).1 = .er
     (evalN 6 (.form {} (.cons (.sym "error") (ofList [.str "boom"]))) {}).1 = .err "error" ∧
     (evalN 6 (.form {} (.cons (.sym "return-from") (ofList [.sym "nowhere", .int 1]))) {}).1 = .err "control-error" := by
   decide +kernel
+
+-- ---------------------------------------------------------------------------------------------
+-- extension round: streams opened by with-open-file, gi:recover
+
+section streams
+variable {specRest bodyObj path : Obj} {x s : String} {opts body vs : List Obj}
+
+/-- `with-open-file`: path and options are evaluated first (left to right); the stream is opened, bound to the
+variable in a frame of its own, and CLOSED when the body is left — whatever the outcome of the body is (normal
+return, return-from, go, error) -/
+theorem stream_closed_on_every_path (hb : listOf bodyObj = some body) (hs : listOf specRest = some (path :: opts))
+    (ha : evalN n (.args ρ (path :: opts)) σ = (.val (.str s :: vs), σ1))
+    (hbody : evalN n (.seq (pushFrame ρ σ1.frames.length) body)
+      (addFrame (addStream σ1) [(x, .stream σ1.streams.length)]) = (o, σ2)) (hne : o ≠ .timeout) :
+    evalN (n + 1) (.form ρ (.cons (.sym "with-open-file") (.cons (.cons (.sym x) specRest) bodyObj))) σ
+      = (o, closeStream σ2 σ1.streams.length) := by
+  simp [evalN, step, stepEval, listOf, hb, hs, stepForm, formOf, ha, bindV, hbody, andThen_of_ne _ hne]
+
+/-- an exit while the path / option forms are evaluated: no stream is opened and the body is not evaluated -/
+theorem exit_propagates_with_open_file_args (hb : listOf bodyObj = some body) (hs : listOf specRest = some (path :: opts))
+    (ha : evalN n (.args ρ (path :: opts)) σ = (o, σ1)) (ho : NotVal o) :
+    evalN (n + 1) (.form ρ (.cons (.sym "with-open-file") (.cons (.cons (.sym x) specRest) bodyObj))) σ = (o, σ1) := by
+  simp [evalN, step, stepEval, listOf, hb, hs, stepForm, formOf, ha, bindV_exit _ ho]
+
+theorem stream_open_in_body (σ : St) (fr : List (String × Obj)) :
+    (addFrame (addStream σ) fr).streams[σ.streams.length]? = some true := by
+  simp [addFrame, addStream]
+
+theorem stream_closed_after (σ : St) (id : Nat) (h : id < σ.streams.length) :
+    (closeStream σ id).streams[id]? = some false := by
+  simp [closeStream, h]
+
+/-- closing one stream leaves every other stream as it was -/
+theorem close_touches_one_stream (σ : St) (id k : Nat) (h : k ≠ id) :
+    (closeStream σ id).streams[k]? = σ.streams[k]? := by
+  simp [closeStream, List.getElem?_set, Ne.symm h]
+
+/-- the stream is closed although the body signals an error, and the error surfaces with its class -/
+example : (evalN 10 (.form {} (.cons (.sym "with-open-file") (ofList [ofList [.sym "s", .str "/dev/null"],
+      .cons (.sym "vtr") (ofList [.cons (.sym "vopen") (ofList [.sym "s"])]),
+      .cons (.sym "car") (ofList [.int 5])]))) {}) =
+    (.err "type-error", { frames := [[("s", .stream 0)]], streams := [false], trace := [.t] }) := by decide +kernel
+
+end streams
+
+section recover
+variable {onrec bodyObj : Obj} {x cls : String} {body : List Obj}
+
+/-- `(recover sym on-recover form…)`: when the forms signal an error of class `cls`, the on-recover form is evaluated
+(once) in the store the error left, with `sym` bound to a condition of exactly that class, and gives the outcome -/
+theorem recover_handles_error (hb : listOf bodyObj = some body)
+    (h : evalN n (.seq ρ body) σ = (.err cls, σ1)) :
+    evalN (n + 1) (.form ρ (.cons (.sym "recover") (.cons (.sym x) (.cons onrec bodyObj)))) σ
+      = evalN n (.form (pushFrame ρ σ1.frames.length) onrec) (addFrame σ1 [(x, .cond cls)]) := by
+  simp [evalN, step, stepEval, listOf, hb, stepForm, formOf, h, andThen]
+
+/-- every other outcome of the forms — a normal return, a return-from, a go — passes `recover` unchanged and the
+on-recover form is NOT evaluated: recover handles errors and nothing else -/
+theorem recover_passes_non_errors (hb : listOf bodyObj = some body)
+    (h : evalN n (.seq ρ body) σ = (o, σ1)) (hne : o ≠ .timeout) (hnerr : ∀ c, o ≠ .err c) :
+    evalN (n + 1) (.form ρ (.cons (.sym "recover") (.cons (.sym x) (.cons onrec bodyObj)))) σ = (o, σ1) := by
+  cases o with
+  | err c => exact absurd rfl (hnerr c)
+  | timeout => exact absurd rfl hne
+  | _ => simp [evalN, step, stepEval, listOf, hb, stepForm, formOf, h, andThen]
+
+/-- a cleanup around a recovered error still runs exactly once, before the on-recover form:
+`(recover e (vtr 3) (unwind-protect (car 5) (vtr 2)))` traces 2 3 -/
+example : (evalN 10 (.form {} (.cons (.sym "recover") (ofList [.sym "e", .cons (.sym "vtr") (ofList [.int 3]),
+      .cons (.sym "unwind-protect") (ofList [.cons (.sym "car") (ofList [.int 5]), .cons (.sym "vtr") (ofList [.int 2])])]))) {}) =
+    (.val [.int 3], { frames := [[("e", .cond "type-error")]], trace := [.int 2, .int 3] }) := by decide +kernel
+
+end recover
 
 end SlipVerif.Theorems.C07
